@@ -1,12 +1,12 @@
 /-
 C09 (extension) — the cofactor-width statement of the extended Lehmer gcd with a sharper domain, and
 the full-correctness form of `inv_mod`.
-Only property theorems live here (helper lemmas: Ymq/Lemmas/GcdRow.lean, Ymq/Lemmas/GcdCof8.lean).
+Only property theorems live here (helper lemmas: Ymq/Lemmas/GcdRow.lean, GcdRow2.lean, GcdEgcd2.lean, GcdCof7.lean).
 Same model as Props/C09.lean (Ymq/Model/Gcd.lean: `none` = the real code panics in the checked
 profile, or the fuel ran out — excluded by `gcd_terminates`).
 -/
 import Ymq.Props.C09
-import Ymq.Lemmas.GcdCof8
+import Ymq.Lemmas.GcdCof7
 import Mathlib.Data.Nat.ModEq
 
 namespace Ymq.C09
@@ -27,28 +27,49 @@ example : reduce64 18446744073709551615 12345678901234567 =
     some (-3133215, 4681606876, 11521471, -17215223933) ∧ (4681606876 : Int).natAbs < 2 ^ 34 := by
   decide +kernel
 
-/-- `no_panic`, extended variant with the real cofactor width, on the domain `max(n, p) < 2^(64N-8)`
-(1016 bits for N = 16, 504 bits for N = 8, 248 bits for N = 4; `no_panic_ext` had `64N-12`):
+/-- `reduce64(x, y)` for **all** pairs of 64-bit words: every product of an entry of the first row by an
+entry of the second row of the returned matrix is at most `(11/12) * 2^70` (`3 |e1| |e2| <= 11 * 2^68`).
+Reason: nearest-integer quotients keep, in each column, the previous cofactor at most `2/3` of the
+current one, so the last step `s' = k s -+ p`, `k <= q + 1`, gives `|s'| <= (q + 5/3) |s| + 1`, and the
+matrix-size test that was passed says `(q + 2) * max(|c|, |d|) < 2^36`, `max(|c|, |d|) < 2^34`. The
+largest product met by a directed search is `0.90 * 2^70`. -/
+theorem reduce64_row_product (x y : Nat) (hx : x < 2 ^ 64) (hy : y < 2 ^ 64) (a b c d : Int)
+    (h : reduce64 x y = some (a, b, c, d)) :
+    3 * (a.natAbs * c.natAbs) ≤ 11 * 2 ^ 68 ∧ 3 * (a.natAbs * d.natAbs) ≤ 11 * 2 ^ 68 ∧
+    3 * (b.natAbs * c.natAbs) ≤ 11 * 2 ^ 68 ∧ 3 * (b.natAbs * d.natAbs) ≤ 11 * 2 ^ 68 := by
+  have hR := reduce64_rowprod (by rw [W_eq]; exact hx) (by rw [W_eq]; exact hy) h
+  have h1 := hR.pac; have h2 := hR.pad; have h3 := hR.pbc; have h4 := hR.pbd
+  simp only [Int.abs_eq_natAbs] at h1 h2 h3 h4
+  have e : (11 * 2 ^ 68 : Nat) = 3246626956972881084416 := by norm_num
+  rw [e]
+  exact ⟨by exact_mod_cast h1, by exact_mod_cast h2, by exact_mod_cast h3, by exact_mod_cast h4⟩
+
+example : reduce64 9252754402567472798 744673999053474881 =
+    some (-1376391535, 17101997453, -4964999032, 61691312857) ∧
+    10 * (17101997453 * 61691312857) > 8 * 2 ^ 70 := by
+  decide +kernel
+
+/-- `no_panic`, extended variant with the real cofactor width, on the domain `max(n, p) < 2^(64N-7)`
+(1017 bits for N = 16, 505 bits for N = 8, 249 bits for N = 4; `no_panic_ext` had `64N-12`):
 `gcd_internal::<N, true>` never panics — no `BInt<N>` cofactor operation overflows, nor any other
 site — and it returns the gcd with valid Bezout cofactors; the returned `u` is at most
-`74 * max(n, p) + 1` in absolute value.
-Invariant behind it (Ymq/Lemmas/GcdCof8.lean), for the state after the swap (`y <= x`, rows `(A, B)`
-of `x` and `(C, D)` of `y`): `|A| * y <= 140 * max(n, p)`, `|B| * y <= 140 * max(n, p)` and all four
-cofactors at most `73 * max(n, p) + 1`. With the determinant identity `x * C - y * A = -+p`, the
-half-size bound of the i64 `extended_gcd` cofactors (`egcdI64_total2`) and `reduce64_first_row`, every
-product and sum formed by the quotient step, the Lehmer step and the final combination is at most
-`119 * max(n, p) + 1 < 2^(64N-1)`.
+`64 * max(n, p) + 1` in absolute value. The domain is SHARP: `no_panic_ext_threshold`.
+Invariant behind it (Ymq/Lemmas/GcdCof7.lean), for the state after the swap (`y <= x`, rows `(A, B)`
+of `x` and `(C, D)` of `y`): `|A| * y <= 121 * max(n, p)`, `|B| * y <= 121 * max(n, p)` and all four
+cofactors at most `63 * max(n, p) + 1`. With the determinant identity `x * C - y * A = -+p`, the
+half-size bound of the i64 `extended_gcd` cofactors (`egcdI64_total2`) and the bound `(11/12) * 2^70` on
+the products of the two rows of a `reduce64` matrix (`reduce64_row_product`), every product and sum
+formed by the quotient step, the Lehmer step and the final combination is at most
+`64 * max(n, p) + 1 < 2^(64N-1)`.
 The classical Euclid bound (constant 1) does not hold for this algorithm: after a Lehmer step the new
 pair is `(u, v) * 2^k` plus an error of up to `2^36 * 2^k` that can exceed `u * 2^k` by a factor `2^8`,
 and the products `|A| * y` really reach about `115 * max(n, p)` (intermediate values of `57 * max(n, p)`
-were observed); so the true threshold is at most `64N - 6` (`no_panic_ext_domain_sharp`) and at least
-`64N - 8` bits; operands of exactly `64N - 7` bits are open (no overflow found by a directed search;
-the analysis sketched above predicts none: `57 < 64`). -/
-theorem no_panic_ext_wide (N : Nat) (hN : 0 < N) (n p : Nat) (hn : n < 2 ^ (64 * N - 8))
-    (hp : p < 2 ^ (64 * N - 8)) :
+were found by a directed search: see ADV_TOPS in props/c09.py). -/
+theorem no_panic_ext_wide (N : Nat) (hN : 0 < N) (n p : Nat) (hn : n < 2 ^ (64 * N - 7))
+    (hp : p < 2 ^ (64 * N - 7)) :
     ∃ (d : Nat) (u v : Int), gcdInternal N true n p = some (d, u, v) ∧
-      d = Nat.gcd n p ∧ u * n + v * p = d ∧ u.natAbs ≤ 74 * max n p + 1 := by
-  obtain ⟨d, u, v, hr, hu⟩ := T8.gcdInternal_ext_total hN hn hp
+      d = Nat.gcd n p ∧ u * n + v * p = d ∧ u.natAbs ≤ 64 * max n p + 1 := by
+  obtain ⟨d, u, v, hr, hu⟩ := T7.gcdInternal_ext_total hN hn hp
   have hr' := hr
   unfold gcdInternal at hr'
   obtain ⟨h1, h2⟩ := gcdLoop_spec hN _ _ d u v hr' (GInv_init true n p)
@@ -56,14 +77,26 @@ theorem no_panic_ext_wide (N : Nat) (hN : 0 < N) (n p : Nat) (hn : n < 2 ^ (64 *
   rw [Int.abs_eq_natAbs] at hu
   exact_mod_cast hu
 
-example : (2 ^ 247 + 12345 : Nat) < 2 ^ (64 * 4 - 8) ∧ ¬ (2 ^ 247 + 12345 : Nat) < 2 ^ (64 * 4 - 12) ∧
-    ∃ u v, gcdInternal 4 true (2 ^ 247 + 12345) (2 ^ 246 + 77) = some (1, u, v) := by
+example : (2 ^ 248 + 12345 : Nat) < 2 ^ (64 * 4 - 7) ∧ ¬ (2 ^ 248 + 12345 : Nat) < 2 ^ (64 * 4 - 12) ∧
+    ∃ u v, gcdInternal 4 true (2 ^ 248 + 12345) (2 ^ 247 + 77) = some (1, u, v) := by
   refine ⟨by decide, by decide, ?_⟩
-  obtain ⟨d, u, v, h, hd, _⟩ := no_panic_ext_wide 4 (by decide) (2 ^ 247 + 12345) (2 ^ 246 + 77)
+  obtain ⟨d, u, v, h, hd, _⟩ := no_panic_ext_wide 4 (by decide) (2 ^ 248 + 12345) (2 ^ 247 + 77)
     (by decide) (by decide)
   have : d = 1 := by rw [hd]; decide +kernel
   subst this
   exact ⟨u, v, h⟩
+
+/-- the exact threshold of the cofactor width for N = 4 (`BInt<4>`, 256 bits): every pair of operands
+below `2^249` (`64N - 7` bits) is handled without panic, and a pair below `2^250` is not. (The lower
+side holds for every N: `no_panic_ext_wide`; the witness is `no_panic_ext_domain_sharp`.) -/
+theorem no_panic_ext_threshold :
+    (∀ n p : Nat, n < 2 ^ 249 → p < 2 ^ 249 → ∃ d u v, gcdInternal 4 true n p = some (d, u, v)) ∧
+    (∃ n p : Nat, n < 2 ^ 250 ∧ p < 2 ^ 250 ∧ gcdInternal 4 true n p = none) := by
+  refine ⟨fun n p hn hp => ?_, ?_⟩
+  · obtain ⟨d, u, v, h, _⟩ := no_panic_ext_wide 4 (by decide) n p hn hp
+    exact ⟨d, u, v, h⟩
+  · obtain ⟨h1, h2, h3⟩ := no_panic_ext_domain_sharp
+    exact ⟨_, _, h1, h2, h3⟩
 
 /-- a modular inverse exists only for coprime operands -/
 private theorem coprime_of_mul_mod {n p x : Nat} (h : n * x % p = 1 % p) : Nat.gcd n p = 1 := by
@@ -82,12 +115,12 @@ private theorem coprime_of_mul_mod {n p x : Nat} (h : n * x % p = 1 % p) : Nat.g
       exact Nat.dvd_one.1 hg
 
 /-- full-correctness form of `inv_mod::<N>(n, p)` (termination + result, both directions) for a non-zero
-modulus and operands below `2^(64N-8)`: it returns (no panic, the loop ends within its fuel), and
+modulus and operands below `2^(64N-7)`: it returns (no panic, the loop ends within its fuel), and
 * if `gcd(n, p) = 1` the result is `Ok(x)` with `x < p` and `n * x ≡ 1 (mod p)` — the unique such `x`;
 * if `gcd(n, p) ≠ 1` the result is `Err(gcd(n, p))`.
 Hence `Ok` iff coprime, `Err` iff not coprime. (`p = 0` is refused by the assertion: `inv_mod_spec`.) -/
 theorem inv_mod_total (N : Nat) (hN : 0 < N) (n p : Nat) (hp0 : p ≠ 0)
-    (hn : n < 2 ^ (64 * N - 8)) (hp : p < 2 ^ (64 * N - 8)) :
+    (hn : n < 2 ^ (64 * N - 7)) (hp : p < 2 ^ (64 * N - 7)) :
     (Nat.gcd n p = 1 → ∃ x, invMod N n p = some (.ok x) ∧ x < p ∧ n * x % p = 1 % p ∧
         ∀ x', x' < p → n * x' % p = 1 % p → x' = x) ∧
     (Nat.gcd n p ≠ 1 → invMod N n p = some (.err (Nat.gcd n p))) := by
@@ -96,13 +129,13 @@ theorem inv_mod_total (N : Nat) (hN : 0 < N) (n p : Nat) (hp0 : p ≠ 0)
     rw [if_neg hp0]
     split
     · split <;> exact ⟨_, rfl⟩
-    · obtain ⟨d, u, v, hr, hu⟩ := T8.gcdInternal_ext_total hN hn hp
+    · obtain ⟨d, u, v, hr, hu⟩ := T7.gcdInternal_ext_total hN hn hp
       rw [hr]
       simp only
       split
       · exact ⟨_, rfl⟩
       · split
-        · have hd := (T8.Dom_of_lt hN hn hp).L
+        · have hd := (T7.Dom_of_lt hN hn hp).L
           rw [chkB_of_abs hd (by rw [abs_neg]; linarith)]
           exact ⟨_, rfl⟩
         · exact ⟨_, rfl⟩
@@ -125,7 +158,7 @@ theorem inv_mod_total (N : Nat) (hN : 0 < N) (n p : Nat) (hp0 : p ≠ 0)
     refine ⟨fun h1 => absurd (hs.1 ▸ h1) hs.2, fun _ => by rw [hr, hs.1]⟩
 
 example : (Nat.gcd 3 7 = 1 ∧ invMod 8 3 7 = some (.ok 5)) ∧ (Nat.gcd 6 9 ≠ 1 ∧ invMod 8 6 9 = some (.err 3)) ∧
-    (7 : Nat) < 2 ^ (64 * 8 - 8) := by
+    (7 : Nat) < 2 ^ (64 * 8 - 7) := by
   decide +kernel
 
 end Ymq.C09
